@@ -2,6 +2,7 @@ import HG.Lemmas.Ready
 import HG.Lemmas.Step
 import HG.Lemmas.Loop
 import HG.Lemmas.DagMain
+import HG.Lemmas.PyEq
 /-! # HG.Lemmas.Interrupt — helper lemmas for C14 (human-in-the-loop interrupts)
 
 `execInterrupt` case analysis, the single-node async step, where a pause of a step comes from,
